@@ -28,7 +28,10 @@ RULE = ("Per type (B E J K N R S T) and direction: a dense uniform grid over the
         "increasing where the reference is, never NaN in range; inverse: |mv_to_celsius(E_ref(T)) - T| <= NIST's stated error "
         "for the type (+1e-6) over the inverse validity range; scaling direction 1 = 1000 x E(T) uV, direction 0 = degC from "
         "uV. One evaluation = one grid block / boundary set / drawn point set; non-trivial: contains a point within 1 degC "
-        "of a piece boundary or an inverse-direction point.")
+        "of a piece boundary or an inverse-direction point."
+        ' Further: thermocouple scales fed by Linear scales (input source 0 or 1) through a file, and arrays that mix '
+        'valid samples with NaN / +-inf / far-out-of-range ones (each valid sample must convert as it does on its own '
+        'and per the reference).')
 ASSUMPTIONS = [
     "forward oracle trusts the transcription of the NIST tables shipped in thermocouples_reference (frozen JSON copy)",
     "inverse coefficients can only be judged through NIST's error bound (changes below the bound are invisible by definition)",
